@@ -352,7 +352,10 @@ func c02Plugin(pre bool) {
 			caps = append(caps, c)
 		}
 		if !pre {
-			w.extShape = vr.Choice("extendedAttribute", 3) // 0 none, 1 critical, 2 non-critical
+			w.extShape = 0
+			if vr.Param("extattrs", 1) == 1 {
+				w.extShape = vr.Choice("extendedAttribute", 3) // 0 none, 1 critical, 2 non-critical
+			}
 			attrs = append(attrs, c02ExtAttrs(w.extShape)...)
 			respTI, respRC = vr.Choice("verdict.trustedIdentity", 2), vr.Choice("verdict.revocation", 2)
 			okTI, okRC = vr.Bool("verdict.trustedIdentity.success"), vr.Bool("verdict.revocation.success")
